@@ -190,6 +190,7 @@ def gen_project(seed, idx, opts=None):
         mods[m].self_import = m in self_imp
 
     poly = r.chance(opts.get("p_poly", 0.1))           # un-annotated polymorphic exports
+    infer_fail = poly and r.chance(opts.get("p_infer_fail", 0.0))
     inject = r.chance(opts.get("p_errors", 0.33))
     n_priv_hi = opts.get("max_private", 40)
     errors = []
@@ -311,6 +312,14 @@ def gen_project(seed, idx, opts=None):
         if poly:
             L.append(f".id{m} x = x")
             L.append(f".tw{m} f, x = f(f(x))")
+            L.append(f".ad{m} x = x + 1")
+            # an un-annotated operator-polymorphic export whose inference fails inside erg: its
+            # diagnostics are known to depend on the schedule (see known_findings.json)
+            pdeps = [d for d in mod.deps if not mods[d].cyc]
+            if infer_fail and pdeps:
+                d = pdeps[0]
+                L.append(f".us{m} x = {d}.tw{d}({d}.ad{d}, x) + {d}.id{d}(x)")
+                errors.append((m, "inference"))
         L.append(f'print! "TAG_{m}"')
 
     # main: a checksum over every directly visible public int and some calls
@@ -363,6 +372,7 @@ def gen_project(seed, idx, opts=None):
         "poly": poly,
         "self_import": bool(self_imp),
         "rich_cycle": rich_cycle and shape in ("cycle2", "cycle2_outside", "cycle3", "twocycles"),
+        "infer_fail": any(k == "inference" for _, k in errors),
     }
     return {
         "files": files, "graph": graph, "shape": shape, "tags": names,
